@@ -3,10 +3,29 @@ K = 'github.com/ProjectSerenity/firefly/kernel'
 
 PROP = {
     'pkg': K + '/device/tty',
-    'tests': [{'name': 'TestVerifC17', 'checks_quick': 20000, 'checks_thorough': 600000}],
-    'rule': 'placeholder',
-    'technique': 'placeholder',
-    'level_text': 'placeholder',
-    'level_note': '',
-    'assumptions': [],
+    'tests': [{'name': 'TestVerifC17', 'checks_quick': 40000, 'checks_thorough': 1600000, 'shrinktime': '10s'}],
+    'rule': 'rapid generates a console geometry (w,h in 1..12 with 1 over-represented; thorough tier: ~10% of the cases '
+            '13..200 x 1..60), scrollback 0..6, tab width 0..9 and a history of <=400 ops: WriteByte / Write(chunk) with '
+            'bytes weighted to printable, \\n, \\b, \\t, \\r, space, 0x00, 0xff, any byte (chunks also as long printable '
+            'runs and as runs of short lines), SetCursorPosition(x,y) with 0, in-range, grid-edge, 0..210 and '
+            '2^16/2^31/2^32-1 coordinates, SetState(active/inactive) and (about 1% of the ops) re-AttachTo a console of '
+            'another geometry. The console is a harness text grid. After every op CursorPosition(), the viewport '
+            'origin, State() and every (char, fg, bg) triple of the terminal buffer are compared with a reference '
+            'terminal written from the statement; the cursor must lie inside the viewport; a panic (a write outside '
+            'the bounds-checked buffer) is a violation. Non-trivial = the history wraps at least once after the last '
+            'column and scrolls the buffer at least once (scrollback exhausted); distinct = different hash of the JSON '
+            'case.',
+    'technique': 'rapid-generated op histories vs. a reference terminal model (state comparison after every op)',
+    'level_text': 'Generated-input search: histories of writes, cursor moves, state changes and re-attachments are run '
+                  'on the real VT and on a reference terminal written from the statement; the complete terminal state '
+                  '(cursor, viewport origin, every buffer cell) is compared after every op. Exploration, not proof: the '
+                  'generator aims at 1-column / 1-row consoles, scrollback 0, tab width 0, backspace in column one, '
+                  'wrap at the last column and line feeds on the last line.',
+    'level_note': 'The console is a harness mock (what reaches a console is property C18). Writes outside the buffer are '
+                  'detected through Go bounds checks of the []uint8 buffer.',
+    'assumptions': ['consoles with an empty cell grid (0 columns or 0 rows) are outside the quantifier: the cursor cannot '
+                    'stay inside an empty viewport (the VT index-panics on the first stored byte there)',
+                    'AttachTo starts a fresh reference terminal of the new geometry (blank buffer, cursor (1,1), '
+                    'viewport at the top); the terminal state (active/inactive) is kept',
+                    'SetCursorPosition clips each coordinate to the nearest viewport edge (tty.Device documentation)'],
 }
